@@ -396,7 +396,7 @@ func ftm(vs []time.Duration) time.Duration {
 	return s[f] + (s[len(s)-1-f]-s[f])/2
 }
 
-var recRound = ev.New("c15/multipath-rounds", "rapid state machine over rounds of the real MeasureClockOffsetSCION on loopback: 1..5 real SCIONClients (interleaved mode on/off, counting filters), 0..8 offered paths per round (subset / superset / permutation of the previous round's, withdrawals) whose next hops are distinct harness sockets that answer as SCION time servers with per-path clock offsets >= 2 s apart; per-path faults: no answer, or an immediate refusal (reply with leap indicator 3, so that a failed measurement completes before the successful ones); crypto/rand scripted with rapid-drawn words. Oracle per round: no path => error and no request; otherwise the number of next hops that saw a request equals min(clients, paths) and no hop serves two clients; a client in interleaved mode whose previous path is still offered sends an interleaved-form request to exactly that path's next hop, a client whose previous path was withdrawn sends a basic request and its filter was reset; the returned offset is the fault-tolerant midpoint of the offsets of the paths that answered (50 ms tolerance) and an error is returned when none answered. One evaluation = one round. Non-trivial: round with >= 1 sticky client and >= 1 withdrawn path, or more clients than paths > 0; distinct by round-log hash")
+var recRound = ev.New("c15/multipath-rounds", "rapid state machine over rounds of the real MeasureClockOffsetSCION on loopback: 1..5 real SCIONClients (interleaved mode on/off, counting filters), 0..8 offered paths per round (subset / superset / permutation of the previous round's, withdrawals) whose next hops are distinct harness sockets that answer as SCION time servers with per-path clock offsets >= 2 s apart; per-path faults: no answer, or an immediate refusal (reply with leap indicator 3, so that a failed measurement completes before the successful ones); crypto/rand scripted with rapid-drawn words. Oracle per round: no path => error and no request; otherwise the number of next hops that saw a request equals min(clients, paths) and no hop serves two clients; a client in interleaved mode whose previous path is still offered sends an interleaved-form request to exactly that path's next hop, a client whose previous path was withdrawn sends a basic request and its filter was reset; the returned offset is the fault-tolerant midpoint of the offsets of the paths that answered (450 ms tolerance; per-path offsets are >= 2 s apart) and an error is returned when none answered. One evaluation = one round. Non-trivial: round with >= 1 sticky client and >= 1 withdrawn path, or more clients than paths > 0; distinct by round-log hash")
 
 func TestPropMultipathRounds(t *testing.T) {
 	vt.Check(t, 300, 1500, func(t *rapid.T) {
@@ -675,7 +675,7 @@ func offsetAdmissible(off time.Duration, used map[int][]*exRec, dropSet map[int]
 			if d < 0 {
 				d = -d
 			}
-			return d < 100*time.Millisecond
+			return d < 450*time.Millisecond // per-path offsets are >= 2 s apart (midpoints >= 1 s); under load a round trip takes a while
 		}
 		for _, o := range options[i] {
 			if rec(i+1, append(slices.Clone(cur), o)) {
